@@ -12,7 +12,9 @@ ENTRY = dict(
         corr_files=["Corr/C15Corr.v"],
         theorems=["c15_rxx_family", "c15_controlled", "c15_cx_family", "c15_cs_family", "c15_swap_family", "c15_move",
                   "c15_rot_list", "c15_nonlocal_list", "c15_u_from_thetavec", "c15_weyl", "c15_weyl_t00", "c15_weyl_tt0",
-                  "c15_weyl_symmetry", "c15_local_invariance", "c15_kak_doc_angles", "c15_ge_1",
+                  "c15_weyl_symmetry", "c15_local_invariance", "c15_kak_doc_angles",
+                  "c15_rzx_is_kak", "c15_xxpyy_is_kak", "c15_xxmyy_is_kak", "c15_local_factors",
+                  "c15_gamma_table_ge1", "c15_gamma_table_rot", "c15_gamma_table_consts", "c15_ge_1",
                   "c15_basis_invariants", "c15_setter_refuses", "c15_constructor", "c15_basis_invariants_R",
                   "c15_doc_table_sound", "c15_doc_approx", "c15_doc_table_rows", "c15_facts_registry", "c15_facts_source"],
         allowed_axioms=REAL_AXIOMS,
@@ -34,7 +36,16 @@ ENTRY = dict(
                    "table (parsed from docs/explanation/index.rst) is sound for the model. The model is compared with the implementation on "
                    ">1000 generated inputs per run (all 20 registered names, rzx/xx_plus_yy/xx_minus_yy, random local conjugations, Haar-random "
                    "unitaries, arbitrary dyadic coefficient vectors).",
-        level_note=STD_NOTE + "Axioms: the three axioms of Coq's standard real numbers (ClassicalDedekindReals.sig_forall_dec, sig_not_dec, "
+        level_note=STD_NOTE + "c15_gamma_table_ge1 / _rot / _consts are statements over Q and are closed under the global context (NO axiom): "
+                   "kappa >= 1 for every registered basis at every rational point of the unit circle. "
+                   "Extension round: for rzx, xx_plus_yy, xx_minus_yy it is now PROVED (c15_rzx_is_kak, c15_xxpyy_is_kak, c15_xxmyy_is_kak) that the "
+                   "gate's 4x4 matrix equals K1 * N(a,b,c) * K2 with explicit local (Kronecker-product) factors and (a,b,c) = (-theta/2,0,0), "
+                   "(-theta/4,-theta/4,0), (-theta/4,theta/4,0), N built from the code's own _u_from_thetavec, and that kappa of the KAK path at these "
+                   "coordinates is the documented closed form; the former run-time-only hypothesis 'these are Weyl coordinates of the gate' is gone for "
+                   "these families. What remains assumed about Qiskit for them: TwoQubitWeylDecomposition returns SOME exact KAK decomposition (monitored, "
+                   "1e-9) and KAK coordinates of one gate differ only by Weyl-group moves (a theorem of Lie theory, not formalised), under which kappa "
+                   "is invariant (c15_weyl_symmetry, proved). The gate matrices themselves are hand-written from Qiskit's definitions and compared "
+                   "with Gate.to_matrix() on every run (stream gatemat). Axioms: the three axioms of Coq's standard real numbers (ClassicalDedekindReals.sig_forall_dec, sig_not_dec, "
                    "functional_extensionality_dep), nothing else. For gates that reach the KAK path (rzx, xx_plus_yy, xx_minus_yy, any other "
                    "two-qubit unitary) the closed forms are proved AS A FUNCTION OF THE WEYL COORDINATES; that Qiskit's "
                    "TwoQubitWeylDecomposition returns exact coordinates of the gate (|theta/2| folded into the Weyl chamber, 0, 0) resp. (t,t,0) is "
